@@ -2,7 +2,7 @@
    Models: Lex/Charset.v (lex/charset.go), Lex/RegexParse.v (lex/regexp.go), Lex/RegexSpec.v (specification
    evaluator used as the oracle; it is built from the operations proved here). *)
 From Coq Require Import List ZArith Bool Lia.
-From TM Require Import Lex.Tables Lex.Charset Lex.Charset_proofs Lex.Charset_proofs2 Lex.RegexParse Lex.RegexParse_proofs Lex.RegexParse_proofs2 Lex.RegexSpec.
+From TM Require Import Lex.Tables Lex.Charset Lex.Charset_proofs Lex.Charset_proofs2 Lex.RegexParse Lex.RegexParse_proofs Lex.RegexParse_proofs2 Lex.RegexSpec Lex.ClassText Lex.ClassText_proofs.
 Import ListNotations.
 Local Open Scope Z_scope.
 
@@ -62,9 +62,7 @@ Proof. exact fold_exact. Qed.
        form and (when folding) closing, in-range fold orbits, the result is in normal form and contains x iff
          not negated: x is a member outside every subtracted set, or lies on the fold orbit of such a code point;
          negated:     0 <= x <= max and not so.
-   NOT proved (oracle-checked on every documented pattern): that the scanning loop of parseClass collects exactly the
-   ranges and subtracted sets written in the bracket expression (in particular that a range with hi < lo is rejected:
-   C10_parse_examples shows one instance), i.e. class_spec from the concrete syntax, and print_parse. *)
+   (3) class_spec from the concrete syntax, below: C10_parse_class_of_print / C10_parse_class_rejects_descending. *)
 Theorem C10_parse_class_is_class_den : forall sf named fuel p0 o p' cs, parse_class sf named fuel p0 o = Ok (p', cs) ->
   exists p1 items subs, next p0 = Ok p1 /\
     cs = class_den sf (o_fold o) (p_ch p1 =? 94) (o_bytes o) items subs.
@@ -78,6 +76,50 @@ Theorem C10_class_den_spec : forall sf fold neg bytes items subs,
   forall x, mem x (class_den sf fold neg bytes items subs) = true <->
     if neg then 0 <= x <= cmax bytes /\ ~ in_folded sf fold bytes items subs x else in_folded sf fold bytes items subs x.
 Proof. exact class_den_spec. Qed.
+
+(* class_spec from the concrete syntax.  Lex/ClassText.v defines a grammar of bracket expressions: items are literal
+   characters (ASCII, none of - . \ ] ^), ranges lo-hi, the escapes \a \f \n \r \t \v, and subtracted nested sets
+   -[...] / -[^...] of such items (one level); print_class writes them down ('[', optional '^', the items, ']');
+   wf_items: bodies non-empty, ranges ascending, a subtracted set placed at the start, after a range or after another
+   subtracted set (after a single character "-[" would be read as a range, as in Go).
+   For EVERY well-formed item list, both negations, both modes (runes / bytes), fold option on or off, any text after the
+   class and any offset k of the class in an ASCII pattern (stt src k rem = the parser positioned at k): the scanning
+   loop of parseClass consumes exactly the class and returns class_den (fold) (negated) (bytes) coll subs where coll
+   contains exactly the code points of the WRITTEN ranges (appendRange may merge neighbours: same set, valid ranges) and
+   subs are, in order, the denotations class_den false neg' bytes coll' [] of the WRITTEN subtracted sets.  With
+   C10_class_den_spec this is the documented set. *)
+Theorem C10_parse_class_of_print : forall sf named fuel' o src neg items k tl,
+  wf_items items = true -> (length items < fuel')%nat ->
+  (forall neg body, In (CSub neg body) items -> (S (length body) < fuel')%nat) ->
+  ascii (print_class neg items ++ tl) ->
+  Z.of_nat (length src) = k + Z.of_nat (length (print_class neg items ++ tl)) ->
+  exists coll subs,
+    parse_class sf named (S fuel') (stt src k (print_class neg items ++ tl)) o =
+      Ok (stt src (k + Z.of_nat (length (print_class neg items))) tl, class_den sf (o_fold o) neg (o_bytes o) coll subs) /\
+    (forall x, mem x coll = mem x (ranges_of items)) /\ (forall p, In p coll -> valid p) /\
+    Forall2 (sub_rel sf (o_bytes o)) subs (subs_of items).
+Proof. exact parse_class_of_print. Qed.
+
+(* a range written with hi < lo at the start of a class is rejected with errClassRange spanning the range, for EVERY
+   pair of literal characters and whatever follows *)
+Theorem C10_parse_class_rejects_descending : forall sf named fuel' o src lo hi k tl,
+  plainb lo = true -> plainb hi = true -> hi < lo -> ascii tl ->
+  Z.of_nat (length src) = k + Z.of_nat (length (91 :: lo :: 45 :: hi :: tl)) ->
+  parse_class sf named (S (S fuel')) (stt src k (91 :: lo :: 45 :: hi :: tl)) o = Err E_class_range (k + 1) (k + 1 + 1 + 1 + 1).
+Proof. exact parse_class_rejects_descending. Qed.
+
+(* the parser enters an ASCII pattern in the state stt src 0 src *)
+Theorem C10_init_state : forall src, src <> [] -> ascii src -> init src = Ok (stt src 0 src).
+Proof. exact init_stt. Qed.
+
+(* [^a-z0-9_\n-[aeiou]-[^b-y]] : hypotheses met, and the parser's answer on it *)
+Example C10_class_text_example :
+  let items := [CS (SRange 97 122); CS (SRange 48 57); CS (SChar 95); CS (SEsc 110); CS (SRange 65 70); CSub false [SChar 97; SChar 101; SChar 105; SChar 111; SChar 117]; CSub true [SRange 98 121]] in
+  let src := print_class true items in
+  wf_items items = true /\ src = [91; 94; 97; 45; 122; 48; 45; 57; 95; 92; 110; 65; 45; 70; 45; 91; 97; 101; 105; 111; 117; 93; 45; 91; 94; 98; 45; 121; 93; 93] /\
+  parse_regexp (fun c => c) (fun _ => None) src (mkOpts false false) =
+    Ok (RCC [(0, 97); (101, 101); (105, 105); (111, 111); (117, 117); (122, 1114111)] 0).
+Proof. vm_compute. repeat split; reflexivity. Qed.
 
 (* escape_spec, digit level: hexval accepts exactly 0-9 A-F a-f with their values (F4: the pinned code took G-Z) *)
 Theorem C10_hexval_spec : forall c,
@@ -101,9 +143,11 @@ Theorem C10_next_in_range : forall p,  pst_ok p ->
 Proof. intros p H. split; [intros p'; apply next_ok; exact H | intros m a e; apply next_err; exact H]. Qed.
 
 (* NOT proved (checked by the oracle on every generated and mutated pattern): "every error of parse/parseClass/
-   parseEscape/parseQuantifier lies inside the pattern" for the whole parser; class_spec from the concrete syntax and
-   print_parse are replaced by the specification evaluator Lex/RegexSpec.v, which is assembled from the operations
-   proved above and compared with the implementation's AST at language level. *)
+   parseEscape/parseQuantifier lies inside the pattern" for the whole parser; class_spec from the concrete syntax beyond
+   the grammar of Lex/ClassText.v (non-ASCII literals, '.', \d \w \s \p{..} \x.. \u.. and octal escapes inside a class, a
+   literal ']' in first position, deeper nesting) and print_parse are replaced by the specification evaluator
+   Lex/RegexSpec.v, which is assembled from the operations proved above and compared with the implementation's AST at
+   language level. *)
 
 (* ---- the pinned tree violated the statement (repaired: see known_findings.txt) ---- *)
 Example C10_pinned_hexval_refuted : exists c, ~ is_hex_digit c /\ hexval_pinned c <> -1.
@@ -160,3 +204,6 @@ Print Assumptions C10_hexval_spec.
 Print Assumptions C10_octval_spec.
 Print Assumptions C10_hex_accumulator_exact.
 Print Assumptions C10_next_in_range.
+Print Assumptions C10_parse_class_of_print.
+Print Assumptions C10_parse_class_rejects_descending.
+Print Assumptions C10_init_state.
